@@ -20,7 +20,7 @@ CONSTANTS Fields, Tokens, MaxWrites
 
 Absent == "absent"
 \* tokens whose value is stored as a sub-bucket (maps, lists, string lists); all other tokens are scalars (incl. nil)
-NestedTokens == {"m:empty", "m:flat", "m:nested", "l:empty", "l:mixed", "l:nested", "z:empty", "z:one", "z:dups", "z:bytes", "z:ab", "z:aa", "z:ba"}
+NestedTokens == {"m:empty", "m:flat", "m:nested", "l:empty", "l:mixed", "l:nested", "l:long", "z:empty", "z:one", "z:dups", "z:bytes", "z:ab", "z:aa", "z:ba"}
 IsNested(tok) == tok \in NestedTokens
 
 Checkers == {Fields} \cup {{f} : f \in Fields} \cup {{}}          \* nil checker (all fields), one field, nothing selected
